@@ -14,6 +14,10 @@ THEOREMS = [
     "Cspuz.C17.C17_reencodable_partial",
     "Cspuz.C17.C17_reencodable_nested",
     "Cspuz.C17.C17_reencodable_puzzles",
+    "Cspuz.C17.C17_rooms_decoded_canonical",
+    "Cspuz.C17.C17_reencodable_rooms",
+    "Cspuz.C17.C17_reencodable_valued_rooms",
+    "Cspuz.C17.C17_reencodable_rooms_puzzles",
 ]
 
 ALLOWED_ERR = ("ValueError",)
